@@ -126,6 +126,8 @@ pub enum Ev {
     GSpawnBad { name: usize, ctx: usize },
     CDef { name: usize, ctx: usize },
     CDefBad { name: usize, ctx: usize },
+    /// re-define with a byte-identical script (the latest define still wins: its id stamps the results)
+    CDefSame { name: usize, ctx: usize },
     CCall { name: usize, ctx: usize },
 }
 
@@ -205,6 +207,17 @@ pub fn run_history(h: &[Ev], restart_after: usize, sig: &str) -> (Vec<F>, String
         Ev::CDef { name, ctx } => {
             version += 1;
             let tag = format!("v{}", version);
+            let f = r.append(&format!("{}.define", CN[*name]), Some(ctxs[*ctx]), Some(&format!("{{run: {{|frame| \"{}\"}}}}", tag)), None);
+            m.cmds.insert((*ctx, *name), (f.id, tag));
+        }
+        Ev::CDefSame { name, ctx } => {
+            let tag = match m.cmds.get(&(*ctx, *name)) {
+                Some((_, t)) => t.clone(),
+                None => {
+                    version += 1;
+                    format!("v{}", version)
+                }
+            };
             let f = r.append(&format!("{}.define", CN[*name]), Some(ctxs[*ctx]), Some(&format!("{{run: {{|frame| \"{}\"}}}}", tag)), None);
             m.cmds.insert((*ctx, *name), (f.id, tag));
         }
@@ -364,6 +377,8 @@ pub fn histories(thorough: bool) -> Vec<Vec<Ev>> {
         vec![CDef { name: 0, ctx: 0 }, CDef { name: 0, ctx: 1 }, CCall { name: 0, ctx: 0 }, CCall { name: 0, ctx: 1 }],
         vec![CDef { name: 0, ctx: 1 }, CDef { name: 0, ctx: 0 }, CDef { name: 0, ctx: 1 }, CCall { name: 0, ctx: 1 }],
         vec![CDef { name: 0, ctx: 0 }, CDefBad { name: 0, ctx: 0 }, CDef { name: 1, ctx: 1 }, CCall { name: 0, ctx: 0 }],
+        vec![CDef { name: 0, ctx: 0 }, CDefSame { name: 0, ctx: 0 }, CCall { name: 0, ctx: 0 }],
+        vec![CDef { name: 0, ctx: 0 }, CDef { name: 0, ctx: 1 }, CDefSame { name: 0, ctx: 0 }, CDefSame { name: 0, ctx: 1 }],
         vec![HReg { name: 0, ctx: 0 }, GSpawn { name: 0, ctx: 0 }, CDef { name: 0, ctx: 0 }, Ping { ctx: 0 }, CCall { name: 0, ctx: 0 }],
         vec![HReg { name: 0, ctx: 1 }, GSpawn { name: 0, ctx: 1 }, CDef { name: 0, ctx: 1 }, HReg { name: 0, ctx: 0 }, GSpawn { name: 0, ctx: 0 }, CDef { name: 0, ctx: 0 }],
     ];
@@ -372,7 +387,7 @@ pub fn histories(thorough: bool) -> Vec<Vec<Ev>> {
         let alpha = vec![
             HReg { name: 0, ctx: 0 }, HReg { name: 0, ctx: 1 }, HUnreg { name: 0, ctx: 0 }, HBoom { ctx: 1 }, Ping { ctx: 0 },
             GSpawn { name: 0, ctx: 0 }, GSpawn { name: 0, ctx: 1 }, GSpawnBad { name: 0, ctx: 1 },
-            CDef { name: 0, ctx: 0 }, CDef { name: 0, ctx: 1 }, CDefBad { name: 0, ctx: 0 }, CCall { name: 0, ctx: 0 },
+            CDef { name: 0, ctx: 0 }, CDef { name: 0, ctx: 1 }, CDefBad { name: 0, ctx: 0 }, CDefSame { name: 0, ctx: 0 }, CCall { name: 0, ctx: 0 },
         ];
         for a in &alpha {
             for b in &alpha {
